@@ -404,6 +404,8 @@ func runC19(cases string, res *Result) {
 		switch f {
 		case "observe":
 			c19Observe(eng, c, res)
+		case "observe-go":
+			c19ObserveGo(eng, c, res)
 		case "joinsplit":
 			c19JoinSplit(eng, c, res)
 		case "dec":
@@ -1050,7 +1052,6 @@ func c19Decimal(eng *c19Engine, c Case, res *Result) {
 
 func c19Observe(eng *c19Engine, c Case, res *Result) {
 	v := c19Parse(c.str("v"))
-	ctx := map[string]interface{}{"v": v, "sep": c19Sep}
 	// model predictions
 	for _, q := range [][2]string{{"length", "len"}, {"first", "first"}, {"last", "last"}} {
 		res.Evaluations++
@@ -1067,8 +1068,13 @@ func c19Observe(eng *c19Engine, c Case, res *Result) {
 	} else if exp != "unmod" && got != exp {
 		c19Add(res, Finding{Kind: "disagreement", Where: "slice/observe", Case: c, Expected: exp, Observed: got})
 	}
-	// the law on the implementation: the count of length is the number of iterations of a for loop, of the
-	// items slice(0) returns, and first / last exist exactly when it is positive
+	c19ObserveLaw(eng, v, c, res)
+}
+
+// the law on the implementation: the count of length is the number of iterations of a for loop, of the
+// items slice(0) returns, and first / last exist exactly when it is positive
+func c19ObserveLaw(eng *c19Engine, v interface{}, c Case, res *Result) {
+	ctx := map[string]interface{}{"v": v, "sep": c19Sep}
 	lenOut, lclass, _ := c19Call("length", v, nil)
 	if lclass != "ok" {
 		return
@@ -1346,4 +1352,88 @@ func c19TextCanon(v interface{}) string {
 		parts[i] = hx(c19Text(x))
 	}
 	return canon[:strings.IndexByte(canon, '(')] + "(" + strings.Join(parts, " ") + ")"
+}
+
+// ---------------------------------------------------------------- values of Go's own shapes
+
+type c19NamedStr string
+type c19NamedInt int
+
+// c19GoShapes: values as a Go program hands them over (typed slices, arrays, byte slices, maps with int,
+// interface and named keys): the sentences "length equals the number of elements that first, last, slice
+// and a for loop observe" and "keys lists every key once" speak about these as much as about []interface{}.
+func c19GoShapes() []interface{} {
+	return []interface{}{
+		[]byte("hello"), []byte("h\u00e9llo"), []byte{0xff, 0x41, 0xc3}, []byte{},
+		[]string{"\u00e9", "b", "\u20ac"}, []int{3, 1, 2}, [3]int{7, 8, 9}, [0]int{}, []float64{1.5, 2.5}, []rune("h\u00e9"),
+		[]bool{true, false, true}, []interface{}{"\u00e9", 1.5, nil}, [][]int{{1}, {2, 3}}, []c19NamedStr{"p", "q"},
+		[]c19NamedInt{4, 5, 6}, []uint8{1, 2, 3}, []int64{1 << 40, 2}, []map[string]int{{"a": 1}, {"b": 2}},
+		"h\u00e9llo", "\xffA", "\u20ac", "",
+		map[string]int{"b": 2, "a": 1}, map[int]string{2: "x", 10: "y", 1: "z"}, map[int]int{},
+		map[interface{}]string{1: "int", "1": "str"}, map[interface{}]interface{}{true: 1, "true": 2, 2: 3, 2.5: 4},
+		map[interface{}]int{int64(7): 1, 7: 2, "7": 3}, map[c19NamedStr]int{"k": 1, "j": 2}, map[c19NamedInt]string{3: "c", 1: "a"},
+		map[float64]string{1.5: "a", 0.5: "b"}, map[bool]int{true: 1, false: 0}, map[string]interface{}{"x": nil, "y": []int{1}},
+		map[[2]int]string{{1, 2}: "a", {0, 5}: "b"},
+	}
+}
+
+func c19ObserveGo(eng *c19Engine, c Case, res *Result) {
+	for i, v := range c19GoShapes() {
+		cc := Case{"stream": c.str("stream"), "f": "observe-go", "shape": fmt.Sprintf("%d: %T %v", i, v, v)}
+		res.Hist[fmt.Sprintf("go-shape:%T", v)]++
+		res.count(fmt.Sprintf("observe-go %d", i), true)
+		for _, f := range []string{"length", "first", "last", "keys"} {
+			if _, class, detail := c19Call(f, v, nil); class == "panic" {
+				c19Add(res, Finding{Kind: "oracle", Where: f + "/observe-go", Case: cc, Observed: class, Detail: "the filter panicked: " + detail})
+			}
+		}
+		c19ObserveLaw(eng, v, cc, res)
+		rv := reflect.ValueOf(v)
+		if rv.Kind() != reflect.Map {
+			continue
+		}
+		// keys lists every key once: as Go values, against the map's own keys
+		res.Evaluations++
+		out, class, detail := c19Call("keys", v, nil)
+		if class != "ok" {
+			c19Add(res, Finding{Kind: "oracle", Where: "keys/observe-go", Case: cc, Observed: class, Detail: "keys of a map failed: " + detail})
+			continue
+		}
+		ks, ok := c19Elems(out)
+		if !ok {
+			c19Add(res, Finding{Kind: "oracle", Where: "keys/observe-go", Case: cc, Observed: fmt.Sprintf("%T", out), Detail: "keys of a map is not a list"})
+			continue
+		}
+		seen := map[interface{}]int{}
+		for _, k := range ks {
+			seen[k]++
+		}
+		msg := ""
+		if len(ks) != rv.Len() {
+			msg = fmt.Sprintf("keys lists %d keys of a map with %d entries", len(ks), rv.Len())
+		}
+		for _, mk := range rv.MapKeys() {
+			if n := seen[mk.Interface()]; n != 1 && msg == "" {
+				msg = fmt.Sprintf("keys lists the key %#v %d times", mk.Interface(), n)
+			}
+		}
+		if msg != "" {
+			c19Add(res, Finding{Kind: "oracle", Where: "keys/law", Case: cc, Expected: "every key once", Observed: fmt.Sprint(ks), Detail: msg})
+		}
+		// and the for loop visits as many entries, with the same keys as text
+		loop, lclass, _ := eng.render("{% for k, x in v %}{{ k }}{{ sep }}{% endfor %}", map[string]interface{}{"v": v, "sep": c19Sep})
+		if lclass == "ok" {
+			texts := make([]string, len(ks))
+			for j, k := range ks {
+				texts[j] = c19Text(k) + c19Sep
+			}
+			got := strings.Split(strings.TrimSuffix(loop, c19Sep), c19Sep)
+			want := strings.Split(strings.TrimSuffix(strings.Join(texts, ""), c19Sep), c19Sep)
+			sort.Strings(got)
+			sort.Strings(want)
+			if !c19SameStrings(got, want) {
+				c19Add(res, Finding{Kind: "oracle", Where: "keys/law", Case: cc, Expected: fmt.Sprint(got), Observed: fmt.Sprint(want), Detail: "the keys a for loop visits differ from the keys filter's"})
+			}
+		}
+	}
 }
